@@ -37,16 +37,23 @@ def parseNum? (s : String) : Option Float :=
   else
     (parseInt? s).map Float.ofInt
 
-/-- result coordinate: 16 hex digits of the bit pattern, `nan` for every NaN -/
-def showNum (f : Float) : String :=
-  if f.isNaN then "nan" else toHex f.toBits.toNat 16
+/-- result coordinate.  `full = false` (the verdict path): rounded to the grid `2^-30` (≈ 1e-9), so that numerically
+    harmless rewrites of the crate do not show up as correspondence drift; `full = true` (case prefix `bits`, used only
+    for the logged bit-equality sample): 16 hex digits of the bit pattern.  `nan` for every NaN. -/
+def showNum (full : Bool) (f : Float) : String :=
+  if f.isNaN then "nan"
+  else if full then toHex f.toBits.toNat 16
+  else
+    let g := Float.round (f * Float.ofNat 1073741824)
+    if g.abs < Float.ofNat 4000000000000000000 then toString g.toInt64
+    else if Float.ofNat 0 < g then "big+" else "big-"
 
-def showPoint (p : Point Float) : String := showNum p.x ++ " " ++ showNum p.y
+def showPoint (full : Bool) (p : Point Float) : String := showNum full p.x ++ " " ++ showNum full p.y
 
-def showCL (r : CL Float) : String :=
-  " ".intercalate (r.kind :: r.points.map showPoint)
+def showCL (full : Bool) (r : CL Float) : String :=
+  " ".intercalate (r.kind :: r.points.map (showPoint full))
 
-def showCC (r : CC Float) : String :=
-  " ".intercalate (r.kind :: r.points.map showPoint)
+def showCC (full : Bool) (r : CC Float) : String :=
+  " ".intercalate (r.kind :: r.points.map (showPoint full))
 
 end Rlib.Geometry
